@@ -187,6 +187,17 @@ PROPS = {
             "hist": {"bin": "verifh", "run": "TestC07Hist", "checks": {"quick": 300, "thorough": 60000}, "shards": {"quick": 2, "thorough": 16}},
         },
     },
+    "C06": {
+        "level": "fault_enumeration",
+        "level_text": "Crash-point enumeration: for generated histories on file-backed SQLite (pool of one connection) the serving child process SIGKILLs itself at EVERY database-driver call boundary (before and after each begin/prepare/query/row fetch/exec/statement close/commit/rollback, including table creation); a fresh process reopens the file with the plain driver; each log must hold the old or the new checkpoint, complete and validly cosigned, every acknowledged update must still be in force, and the restarted witness must refuse forks (three presentations) and accept the honest continuation. Thorough adds SIGKILL from outside at drawn instants while the child loops.",
+        "level_note": "SIGKILL keeps the OS page cache: this decides atomicity and acknowledge-after-commit ordering under process death, not durability under power loss. Instants inside SQLite's commit are only sampled (random-kill part).",
+        "technique": "exhaustive crash-point injection at driver-call boundaries over rapid-generated histories (child processes), plus randomized kill instants",
+        "assumptions": HIST_ASSUME + ["the OS keeps written pages of a killed process (no power loss)"],
+        "parts": {
+            "points": {"bin": "verifh", "run": "TestC06Points", "checks": {"quick": 8, "thorough": 320}, "shards": {"quick": 1, "thorough": 8}, "shrinktime": "60s"},
+            "random": {"bin": "verifh", "run": "TestC06Random", "checks": {"quick": 20, "thorough": 2400}, "shards": {"quick": 1, "thorough": 8}, "shrinktime": "20s"},
+        },
+    },
 }
 
 # properties not (yet) claimed: id -> reason
